@@ -7,6 +7,7 @@
    date_of_ord n = Ok (the date with ordinal n) inside 1..MAXORD, Raise OverflowError outside (what `date + timedelta` does). *)
 From Coq Require Import ZArith Bool.
 From PV Require Import Lib.PyBase Spec.Cal Proofs.CalFacts Model.Weekday Proofs.C16Facts Proofs.C16DateTime.
+From PV Require Import Gen.WeekdayNav Proofs.C16Gen.
 Open Scope Z_scope.
 
 (* ---- next / previous ---- *)
@@ -211,3 +212,22 @@ Theorem datetime_nth_of_raises_like_date : forall u x n wd e, wf_date (t_date x)
   (t_nth_of u x n wd = Raise e <-> d_nth_of u (t_date x) n wd = Raise e).
 Proof. exact t_nth_of_raise. Qed.
 Print Assumptions datetime_nth_of_raises_like_date.
+
+(* ---- translator tie: the next/previous bodies regenerated from /repo on every run (Gen/WeekdayNav.v: None-default, weekday
+   range check, keep_time / start_of("day"), first step, `while dt.day_of_week != day_of_week` loop with fuel 7, direction)
+   are the model functions of the theorems above ---- *)
+Theorem translated_Date_next_is_model : forall self o, py_Date_next self o = d_next self o.
+Proof. exact py_Date_next_eq. Qed.
+Print Assumptions translated_Date_next_is_model.
+
+Theorem translated_Date_previous_is_model : forall self o, py_Date_previous self o = d_previous self o.
+Proof. exact py_Date_previous_eq. Qed.
+Print Assumptions translated_Date_previous_is_model.
+
+Theorem translated_DateTime_next_is_model : forall self o keep, py_DateTime_next self o keep = t_next self o keep.
+Proof. exact py_DateTime_next_eq. Qed.
+Print Assumptions translated_DateTime_next_is_model.
+
+Theorem translated_DateTime_previous_is_model : forall self o keep, py_DateTime_previous self o keep = t_previous self o keep.
+Proof. exact py_DateTime_previous_eq. Qed.
+Print Assumptions translated_DateTime_previous_is_model.
